@@ -759,6 +759,9 @@ func rulesMode(rep *vh.Reporter, rng *rand.Rand, eraName, viewsPath, rulesPath, 
 		if rows[i].P2 != rows[j].P2 {
 			return !rows[i].P2
 		}
+		if rows[i].Binding != rows[j].Binding {
+			return rows[i].Binding == "both" // flagged rows a block can hold (with redeemers) first
+		}
 		return rk(&rows[i]) < rk(&rows[j])
 	})
 	carrier := ""
